@@ -1,6 +1,8 @@
 package vm
 
 import (
+	"bytes"
+	"encoding/json"
 	"fmt"
 	"math/big"
 
@@ -29,6 +31,33 @@ type ScriptV1 struct {
 	Vars map[string]any `json:"vars"`
 }
 
+// UnmarshalJSON decodes numeric variables as json.Number: the default float64 decoding rounds integers above 2^53
+// and int(float64) is not defined beyond 2^63, so amounts given as JSON numbers would not reach the machine exactly.
+func (s *ScriptV1) UnmarshalJSON(data []byte) error {
+	var aux struct {
+		Plain    string         `json:"plain,omitempty"`
+		Template string         `json:"template,omitempty"`
+		Vars     map[string]any `json:"vars"`
+	}
+	dec := json.NewDecoder(bytes.NewReader(data))
+	dec.UseNumber()
+	if err := dec.Decode(&aux); err != nil {
+		return err
+	}
+	s.Script = Script{Plain: aux.Plain, Template: aux.Template}
+	s.Vars = aux.Vars
+	return nil
+}
+
+// numberToInteger renders a JSON number exactly; a fractional part is dropped, as the float64 path does.
+func numberToInteger(n json.Number) string {
+	r, ok := new(big.Rat).SetString(n.String())
+	if !ok {
+		return n.String()
+	}
+	return new(big.Int).Quo(r.Num(), r.Denom()).String()
+}
+
 func (s ScriptV1) ToCore() Script {
 	s.Script.Vars = map[string]string{}
 	for k, v := range s.Vars {
@@ -39,8 +68,16 @@ func (s ScriptV1) ToCore() Script {
 			switch amount := v["amount"].(type) {
 			case string:
 				s.Script.Vars[k] = fmt.Sprintf("%s %s", v["asset"], amount)
+			case json.Number:
+				s.Script.Vars[k] = fmt.Sprintf("%s %s", v["asset"], numberToInteger(amount))
 			case float64:
 				s.Script.Vars[k] = fmt.Sprintf("%s %d", v["asset"], int(amount))
+			}
+		case json.Number:
+			if r, ok := new(big.Rat).SetString(v.String()); ok && r.IsInt() {
+				s.Script.Vars[k] = r.Num().String()
+			} else {
+				s.Script.Vars[k] = v.String()
 			}
 		default:
 			s.Script.Vars[k] = fmt.Sprint(v)
